@@ -228,7 +228,11 @@ def _diff(
                 ignore=ignore,
             )
         except FileNotFoundError:
-            pass
+            # only a workspace that is not there counts as empty: when it exists
+            # and could not be read completely (e.g. a dangling symlink in it),
+            # its files must not be taken for absent and written over
+            if fs.exists(path):
+                raise
 
     diff = odiff(old, obj, cache)
     if relink:
